@@ -29,13 +29,14 @@ import re
 
 import z3
 
-from vc import core, pyvc, scvc
+from vc import core, pyvc, scstaged, scvc
 from vc.pyclass import ClassIndex, Inliner
 from vc.pyvc import Contract, Fork, SExc, SRecord, to_z3
 
 TYPES = 'hail/python/hail/expr/types.py'
 CALLPY = 'hail/python/hail/genetics/call.py'
 SCALA = ['hail/hail/src/is/hail/variant/Call.scala', 'hail/hail/src/is/hail/variant/Genotype.scala']
+SCALL = 'hail/hail/src/is/hail/types/physical/stypes/concrete/SCanonicalCall.scala'
 MAXK = 32767
 
 
@@ -415,6 +416,89 @@ def pairs(ctx, objs, tier):
     ctx.under_contract(SCALA[1], 'Genotype.allelePairSqrt (bounded)')
 
 
+# ---- (T) the staged twin of the engine's decoder ----------------------------------------------------------------------------------
+
+
+def _staged_class():
+    try:
+        return scstaged.load_staged_class(core.read_repo(SCALL), SCALL, 'SCanonicalCallValue')
+    except scvc.ScUnsupported as e:
+        raise pyvc.Undecided('staged call value: %s' % e)
+
+
+def _staged_mismatch(cls, objs, alleles, phased, c):
+    """SCanonicalCallValue(c).forEachAllele / ploidy / isPhased (real staged text, vc/scstaged.py) against the call that the
+    engine packed into c; None when they agree"""
+    rec = {'alleles': list(alleles), 'phased': phased, 'engine_int32': c}
+    run = scstaged.StagedRun(cls, objs, {'call': c})
+    out = []
+    try:
+        run.call('forEachAllele', {'alleleCode': out.append})
+        pl, ph = run.call('ploidy'), run.call('isPhased')
+    except scvc.ScThrow as e:
+        return dict(rec, confirmed=True, what='staged forEachAllele / ploidy / isPhased (generated code) throws on a call in range: %s' % e)
+    if out != list(alleles):
+        return dict(rec, confirmed=True, what='staged forEachAllele (generated code) yields other alleles than the call holds', staged_alleles=out, int_arithmetic_wrapped=run.overflows[:2])
+    if (pl, ph) != (len(alleles), phased):
+        return dict(rec, confirmed=True, what='staged ploidy / isPhased (generated code) read other fields than the call holds', staged_ploidy_phased=[pl, ph])
+    if run.overflows:
+        return dict(rec, confirmed=True, what='32-bit Int arithmetic of the staged decoder wraps around on a call in range', int_arithmetic_wrapped=run.overflows[:2], staged_alleles=out)
+    return None
+
+
+def staged_twin(ctx, objs, tier):
+    """SCanonicalCallValue.forEachAllele is the decoder the generated code runs (the interpreter's is Call.allelePairUnchecked,
+    verified above).  (a) AST: every Int -> Double conversion in it applies to a value (the allele representation), never to
+    the result of 32-bit arithmetic, and the narrowing back (.toI) is applied to Double arithmetic - `8 * i + 1` is computed in
+    doubles as in the verified Genotype.allelePairSqrt; (b) BOUNDED: the real staged text is executed (vc/scstaged.py, exact JVM
+    semantics) on the engine's own Call0/1/2.apply values at the first and last index of the rows, both phasings, and must
+    yield exactly the alleles, ploidy and phasing of the call, without any wrapping Int operation."""
+    cls = _staged_class()
+    try:
+        nodes = cls.walk('forEachAllele')
+        for m in ('ploidy', 'isPhased'):
+            cls.walk(m)
+    except scvc.ScUnsupported as e:
+        raise pyvc.Undecided('staged call value: %s' % e)
+    ctx.under_contract(SCALL, 'SCanonicalCallValue.forEachAllele / ploidy / isPhased (staged; bounded)')
+    conv = [n for n in nodes if n.kind == 'Select' and n.name in ('toD', 'toDouble')]
+    bad = ['line %d: .%s of a %s expression' % (n.line, n.name, n.obj.kind) for n in conv if n.obj.kind != 'Ident']
+    sq = [n for n in nodes if n.kind == 'Apply' and any(a.kind == 'Lit' and a.ty == 'String' and a.value.strip('"') == 'sqrt' for _, a in n.args)]
+    ctx.add(core.decided('C34/staged/forEachAllele/int-to-double-conversion-applies-to-the-allele-representation-itself (double arithmetic before any narrowing)', not bad, '; '.join(bad) or '%d conversion(s), receivers: %s' % (len(conv), ', '.join(sorted({n.obj.name for n in conv}))), kind='scan'))
+    ctx.add(core.decided('C34/staged/forEachAllele/closed-form-found (sqrt call and Int->Double conversion present)', bool(conv) and bool(sq), 'toD at lines %s, sqrt at lines %s' % ([n.line for n in conv], [n.line for n in sq]), kind='vacuity'))
+    # (b) bounded execution
+    S = {o: objs[o].funcs for o in ('Call0', 'Call1', 'Call2')}
+    ncached = objs['Genotype'].get_val('nCachedAllelePairs')
+    ks = list(range(0, MAXK + 1)) if tier == 'thorough' else sorted(set(list(range(0, 600)) + list(range(600, MAXK + 1, 97)) + [23169, 23170, 23171, 32766, 32767]))
+    cases = [((), False), ((), True)] + [((a,), ph) for a in (0, 1, 7, 65535, 65536, (1 << 28) - 1, 1 << 28, (1 << 29) - 1) for ph in (False, True)]
+    for k_ in ks:
+        for j_ in (0, k_):
+            if tri(k_) + j_ < (1 << 29):
+                cases.append(((j_, k_), False))
+                cases.append(((j_, k_ - j_), True))
+    last = pair_of_index((1 << 29) - 1)
+    cases += [(last, False), ((last[0], last[1] - last[0]), True)]
+    worst, n_closed = None, 0
+    try:
+        for alleles, ph in cases:
+            c = {0: lambda: S['Call0']['apply'].eval(ph), 1: lambda: S['Call1']['apply'].eval(alleles[0], ph), 2: lambda: S['Call2']['apply'].eval(alleles[0], alleles[1], ph)}[len(alleles)]()
+            if len(alleles) == 2 and ((c & 0xFFFFFFFF) >> 3) >= ncached:
+                n_closed += 1
+            worst = _staged_mismatch(cls, objs, alleles, ph, c)
+            if worst is not None:
+                break
+    except scvc.ScUnsupported as e:
+        raise pyvc.Undecided('staged call value: %s' % e)
+    except scvc.ScThrow as e:
+        raise core.CheckerBug('engine rejects a call in range while checking the staged twin: %s' % e)
+    ctx.add(core.decided('C34/staged/forEachAllele/bounded-run-reaches-the-closed-form-branch', worst is not None or n_closed > 100, '%d of %d calls beyond the %d cached pairs' % (n_closed, len(cases), ncached), kind='vacuity'))
+    ctx.bounded_standin(
+        'staged-forEachAllele-yields-the-alleles-of-the-engine-call',
+        'SCanonicalCallValue.forEachAllele / ploidy / isPhased (real staged Scala text, vc/scstaged.py) on Call0/1/2.apply of the first and last index of %d of the %d rows k <= 32767 (%s tier), both phasings, haploid and empty calls, and index 2^29 - 1; no Int operation may wrap' % (len(ks), MAXK + 1, tier),
+        len(cases), worst is None, worst or '',
+    )
+
+
 # ---- (S) the codec is a function of the 32 bits alone: no process-wide state -------------------------------------------------
 
 MUTATORS = frozenset('append extend insert add update setdefault pop popitem clear remove discard sort reverse appendleft popleft extendleft __setitem__ __delitem__ __setattr__ cache_clear'.split())
@@ -587,6 +671,7 @@ def build(ctx):
     objs = scvc.load_objects([os.path.join(core.REPO, p) for p in SCALA])
     encode_decode(ctx, objs)
     pairs(ctx, objs, ctx.tier if hasattr(ctx, 'tier') else 'quick')
+    staged_twin(ctx, objs, ctx.tier if hasattr(ctx, 'tier') else 'quick')
     pyvc.Engine(ctx, call_init()).run()
     found = {}
 
